@@ -848,7 +848,8 @@ class CallMixin:
         if cl and all(c in self.M.classes for c in cl):
             if repo and all(any(self.M.is_subclass(c, n) for n in repo) for c in cl):
                 return TRUE
-            if not any(self.M.is_subclass(c, n) or self.M.is_subclass(n, c) for c in cl for n in repo):
+            if not any(self.M.is_subclass(c, n) or self.M.is_subclass(n, c) for c in cl for n in repo) and \
+                    not any(n.startswith("?:") for n in names):     # a class given by an expression (self._itemclass) is unknown
                 ext = [n for n in names if n not in self.M.classes]
                 if not ext or not any(self.M.ext_bases(self.M.classes[c]) for c in cl):
                     return FALSE
